@@ -855,10 +855,27 @@ class ExcelInPython:
             # a date-only value is the date-time at its midnight, for every function alike
             return self._at_midnight(value)
 
-        return self._at_midnight(method(self)) if method else self.EmptyCell()
+        if not method:
+            return self.EmptyCell()
+        values = getattr(self, '_values_of_this_query', None)
+        if values is None:
+            return self._at_midnight(method(self))
+        if cell_uid not in values:
+            values[cell_uid] = self._at_midnight(method(self))
+        return values[cell_uid]
 
     def exec_function_in(self, cell_uid: str):
-        return self._cell_preprocessor(cell_uid)
+        # The values computed on the way are remembered for the duration of this one query: a cell that several formulas refer to (or one
+        # formula twice, as in =IF(A9>0,A9*0.9,0)) is evaluated once, not once per path that leads to it - in a column of such formulas
+        # the number of paths doubles with every row.
+        outermost = getattr(self, '_values_of_this_query', None) is None
+        if outermost:
+            self._values_of_this_query = {{}}
+        try:
+            return self._cell_preprocessor(cell_uid)
+        finally:
+            if outermost:
+                self._values_of_this_query = None
     
     @staticmethod
     def _today() -> datetime.date:
